@@ -21,4 +21,6 @@ var _ = factory.ChfConfig // the contracts below mention the configuration
 //@   requires [C18 C20] factory.ChfConfig != nil && factory.ChfConfig.Configuration != nil && factory.ChfConfig.Configuration.RfDiameter != nil && factory.ChfConfig.Configuration.RfDiameter.Tls != nil
 //@   ensures ghostLiveConns == old(ghostLiveConns)
 //@   ensures assumed GhostRequests >= old(GhostRequests)
+//@   ensures [C11 C18] (result1 == nil) == (result0 != nil)
+//@   ensures assumed [C11] result1 == nil ==> result0.ServiceRating != nil && result0.ServiceRating.MonetaryTariff != nil && result0.ServiceRating.MonetaryTariff.RateElement != nil && result0.ServiceRating.MonetaryTariff.RateElement.UnitCost != nil
 //@   modifies global(&GhostRequests), field(sur, DestinationRealm), field(sur, DestinationHost)
